@@ -282,9 +282,22 @@ def lean_sources():
     return sorted(out)
 
 
-def forbidden_tokens():
+def import_closure(prop):
+    """project files the property's theorems depend on (transitive imports of RallyProps/<prop>.lean)"""
+    seen, todo = [], [os.path.join(LEAN_DIR, "RallyProps", prop + ".lean")]
+    while todo:
+        f = todo.pop()
+        if f in seen or not os.path.exists(f):
+            continue
+        seen.append(f)
+        for m in re.finditer(r"^import\s+((?:RallyModel|RallyProofs|RallyProps|RallyGen)\.[\w.]+)", open(f).read(), flags=re.M):
+            todo.append(os.path.join(LEAN_DIR, *m.group(1).split(".")) + ".lean")
+    return sorted(seen)
+
+
+def forbidden_tokens(prop=None):
     hits = []
-    for p in lean_sources():
+    for p in (import_closure(prop) if prop else lean_sources()):
         src = open(p).read()
         src_nc = re.sub(r"/-.*?-/", lambda m: "\n" * m.group(0).count("\n"), src, flags=re.S)
         for i, line in enumerate(src_nc.splitlines(), 1):
@@ -338,7 +351,7 @@ def build_and_audit(prop, tier, translate_fn):
                 obligations.append({"name": n, "kind": "theorem", "ok": not bad, "detail": {"axioms": axioms[n]}})
         if not names:
             raise HarnessError("no theorems registered for " + prop)
-        hits = forbidden_tokens()
+        hits = forbidden_tokens(prop)
         obligations.append({"name": "no-sorry-no-axiom-grep", "kind": "audit", "ok": not hits, "detail": hits[:20]})
         checker = f"cd lean && lake build rvdriver +RallyProps.{prop} && lake env lean Audit/{prop}.lean"
         if tier == "thorough" and build_ok:
